@@ -521,7 +521,7 @@ theorem visible_spec (t : Tree) (pens : Array (Option Pen)) (hok : TreeOk t) (ho
 /-- The invariant only reads the content of owned cells. -/
 theorem goodQ_content_congr (content content' : Id → Int → Int → Cell) (st : St) (hg : GoodQ content st)
     (h : ∀ L C w l c, ownerAt st.tree L C = some (w, l, c) → content' w l c = content w l c) : GoodQ content' st :=
-  { tinv := ⟨hg.tinv.ok, hg.tinv.ord, hg.tinv.root, hg.tinv.pos, hg.tinv.nonempty, hg.tinv.dinv, fun L C w l c ho => by
+  { tinv := ⟨hg.tinv.ok, hg.tinv.ord, hg.tinv.pos, hg.tinv.nonempty, hg.tinv.dinv, fun L C w l c ho => by
       rcases hg.tinv.inv L C w l c ho with hc | hc
       · exact Or.inl hc
       · exact Or.inr (by rw [h L C w l c ho]; exact hc)⟩
@@ -535,7 +535,7 @@ theorem goodQ_reroot (content : Id → Int → Int → Cell) (st : St) (t' : Tre
   have hcore : ∀ x : Id, (t'.wins[x]?).map core = (st.tree.wins[x]?).map core := by intro x; rw [hw]
   exact
   { tinv := ⟨treeOk_congr_core hcore hg.tinv.ok, ordered_congr hw hg.tinv.ord,
-             rootOk_congr_core (hcore 0) hg.tinv.root, rootsPositive_congr_core hcore hg.tinv.pos,
+             rootsPositive_congr_core hcore hg.tinv.pos,
              (by rw [hd]; exact hg.tinv.nonempty), (by rw [hd]; exact hg.tinv.dinv), fun L C w l c ho => by
                rw [ownerAt_congr t' st.tree hw] at ho
                rw [hd]
@@ -719,7 +719,11 @@ theorem scroll_step (oracle : Oracle) (content content' : Id → Int → Int →
                           (fun _ _ => False) (st, true, false) acc' hlp hl0 vinv.1 vinv.2.1
                           (fun ρ hρ L C hm => by
                             obtain ⟨o1, _⟩ := v1 L C ⟨ρ, hρ, hm⟩
-                            obtain ⟨wr, hwr, b1, b2, b3, b4⟩ := ownerAt_some_memb st.tree hI.root L C _ o1
+                            have hro : RootOk st.tree := by
+                              rcases root_vis_cases st.tree hI.ok with hv | ⟨wh, hwh, hvh⟩
+                              · exact rootOk_of_visible hI.ok hv
+                              · rw [ownerAt_none_of_hidden st.tree wh hwh hvh] at o1; cases o1
+                            obtain ⟨wr, hwr, b1, b2, b3, b4⟩ := ownerAt_some_memb st.tree hro L C _ o1
                             rw [hrootw] at hwr; cases hwr
                             exact ⟨o1, fun hx => hx, b1, by omega, b3, by omega⟩)
                           (fun ρ hρ L C hm => by
@@ -744,7 +748,7 @@ theorem scroll_step (oracle : Oracle) (content content' : Id → Int → Int →
                           intro x; rw [a1.wins]
                         have hgl : GoodQ content' acc'.1 :=
                           { tinv := ⟨treeOk_congr_core hcore hok, ordered_congr a1.wins hI.ord,
-                                     rootOk_congr_core (hcore 0) hI.root, rootsPositive_congr_core hcore hI.pos,
+                                     rootsPositive_congr_core hcore hI.pos,
                                      a1.nonempty, a1.dinv, hinv'⟩
                             flags := a1.flags
                             queue := (by intro q hq; rw [a1.changes] at hq; exact hg.queue q hq)
